@@ -261,14 +261,16 @@ class CodeBase:
             base's listed directories and does not match any exclude
             pattern(s).
         """
-        # A symbolic link that leads back to itself names no file at all.
+        # A symbolic link that leads back to itself names no file at all,
+        # and neither does a path that the operating system refuses to look
+        # up (a name that is too long, an embedded null byte).
         try:
             path = Path(path).resolve()
-        except RuntimeError:
-            return False
 
-        # Files that don't exist aren't part of the code base.
-        if not path.exists():
+            # Files that don't exist aren't part of the code base.
+            if not path.exists():
+                return False
+        except (RuntimeError, OSError, ValueError):
             return False
 
         # Directories and special files (pipes, sockets, devices) cannot be
